@@ -5,7 +5,8 @@ MCBase == << [name |-> "ma", items |-> <<Item("type", "Alpha", 0), Item("impl", 
              [name |-> "mb", items |-> <<Item("type", "Gamma", 0), Item("impl", "Gamma", 1)>>] >>
 MCUnrelated == {"Uno", "Duo", "Work", "Ada", "Zen"}
 MCUnrelatedSmall == {"Uno", "Work"}
-MCNonBridge == {"free_fn", "same_named_struct", "same_named_impl", "plain_module", "constant"}
+\* "foreign_attr": an item carrying another crate's attribute that merely ENDS in `config` (only #[diplomat::config] is configuration)
+MCNonBridge == {"free_fn", "same_named_struct", "same_named_impl", "plain_module", "constant", "foreign_attr"}
 \* negative model: also allow swapping two impl blocks of the same type
 SwapAny(m, i) ==
   /\ Tick /\ m \in 1..Len(mods) /\ i \in 1..(Len(mods[m].items) - 1)
